@@ -71,8 +71,17 @@ def repo_tree_hash():
     return _tree_hash
 
 
+import threading
+_gen_lock = threading.Lock()
+
+
 def gen_dir():
     """generated version.hpp for the current tree (what cmake's configure_file would produce)"""
+    with _gen_lock:
+        return _gen_dir_locked()
+
+
+def _gen_dir_locked():
     d = os.path.join(BUILD, "gen-" + repo_tree_hash()[:16])
     out = os.path.join(d, "smooth", "version.hpp")
     if not os.path.exists(out):
@@ -116,9 +125,15 @@ def harness_deps_hash(src):
     return h
 
 
+def san_flags(san):
+    if san == "thread":
+        return ["-fsanitize=thread"]
+    return SAN_FLAGS if san else []
+
+
 def compile_obj(src, extra, san=True, uses_repo=True):
     """compile one TU into the content-addressed object cache; returns the object path"""
-    flags = BASE_FLAGS + (SAN_FLAGS if san else []) + list(extra)
+    flags = BASE_FLAGS + san_flags(san) + list(extra)
     srcp = os.path.join(HARNESS, src)
     key = sha(harness_deps_hash(src), " ".join(flags),
               repo_tree_hash() if uses_repo else "norepo")
@@ -141,21 +156,24 @@ def compile_obj(src, extra, san=True, uses_repo=True):
 def build_jobs(pid):
     """list of (src, extra_flags, san, uses_repo) for the main (rapidcheck/replay) binary of a property"""
     cfg = PROPS[pid]
-    jobs = [("drivers/main.cpp", ("-DVF_DRIVER_MAIN",), True, False)]
-    for src, n in cfg["src"]:
+    san = cfg.get("san", True)
+    jobs = [("drivers/main.cpp", ("-DVF_DRIVER_MAIN",), san, False)]
+    for ent in cfg["src"]:
+        src, n = ent[0], ent[1]
+        extra = list(ent[2]) if len(ent) > 2 else []
         for u in range(n):
-            jobs.append((src, tuple(["-DVF_UNIT=%d" % u, "-DVF_NUNITS=%d" % n] + cfg.get("cxxflags", [])), True, True))
+            jobs.append((src, tuple(["-DVF_UNIT=%d" % u, "-DVF_NUNITS=%d" % n] + extra + cfg.get("cxxflags", [])), san, True))
     return jobs
 
 
-def link_bin(pid, objs, extra_link=()):
-    key = sha(*[os.path.basename(o) for o in objs], " ".join(extra_link))
+def link_bin(pid, objs, extra_link=(), san=True):
+    key = sha(*[os.path.basename(o) for o in objs], " ".join(extra_link), str(san))
     os.makedirs(os.path.join(BUILD, "bin"), exist_ok=True)
     out = os.path.join(BUILD, "bin", "%s-%s" % (pid, key[:16]))
     if os.path.exists(out):
         os.utime(out)
         return out
-    cmd = ["g++"] + SAN_FLAGS + objs + ["-lrapidcheck", "-lpthread"] + list(extra_link) + ["-o", out + ".tmp%d" % os.getpid()]
+    cmd = ["g++"] + san_flags(san) + objs + ["-lrapidcheck", "-lpthread"] + list(extra_link) + ["-o", out + ".tmp%d" % os.getpid()]
     r = subprocess.run(cmd, capture_output=True, text=True)
     if r.returncode != 0:
         sys.stderr.write("LINK FAILED: %s\n%s\n" % (" ".join(cmd), r.stderr[-4000:]))
@@ -177,7 +195,7 @@ def build(pids, pool=None):
     bins = {}
     for pid in pids:
         objs = [futs[j].result() for j in build_jobs(pid)]
-        bins[pid] = link_bin(pid, objs, PROPS[pid].get("ldflags", []))
+        bins[pid] = link_bin(pid, objs, PROPS[pid].get("ldflags", []), PROPS[pid].get("san", True))
     if own:
         pool.shutdown()
     prune()
@@ -239,7 +257,8 @@ def known_findings(pid):
 # malloc_context_size=0 + small quarantine: with rapidcheck's deep lazy call trees ASan's stack depot and
 # quarantine otherwise grow by ~10 kB per case (6 GB per process at 500k cases -> OOM kills)
 RUN_ENV = dict(ASAN_OPTIONS="detect_leaks=0:abort_on_error=1:handle_abort=1:malloc_context_size=0:quarantine_size_mb=32",
-               UBSAN_OPTIONS="print_stacktrace=1:halt_on_error=1")
+               UBSAN_OPTIONS="print_stacktrace=1:halt_on_error=1",
+               TSAN_OPTIONS="halt_on_error=1:abort_on_error=1:second_deadlock_stack=1")
 
 
 def run_bin(binp, args, timeout, env_extra=None, stdout=None):
@@ -335,6 +354,129 @@ def minimise_abort(binp, path, budget=120):
         os.remove(tmp)
 
 
+FUZZ_RT = "/usr/lib/llvm-14/lib/clang/14.0.6/lib/linux/libclang_rt.fuzzer-x86_64.a"
+COV_FLAGS = ("-fsanitize-coverage=trace-pc,trace-cmp",)
+
+
+def fuzz_obj(src, extra, san):
+    """coverage-instrumented object with gcc's trace-pc callback renamed for the shim (see drivers/cov_shim.cpp)"""
+    obj = compile_obj(src, tuple(extra) + COV_FLAGS, san, True)
+    out = obj[:-2] + ".fz.o"
+    if not os.path.exists(out):
+        tmp = out + ".tmp%d" % os.getpid()
+        r = subprocess.run(["objcopy", "--redefine-sym", "__sanitizer_cov_trace_pc=verif_cov_trace_pc", obj, tmp], capture_output=True, text=True)
+        if r.returncode != 0:
+            sys.stderr.write("objcopy failed: %s\n" % r.stderr)
+            raise SystemExit(3)
+        os.replace(tmp, out)
+    os.utime(out)
+    return out
+
+
+def build_fuzz(pid):
+    cfg = PROPS[pid]
+    san = cfg.get("san", True)
+    with cf.ThreadPoolExecutor(NCPU) as pool:
+        futs = []
+        for ent in cfg["src"]:
+            src, n = ent[0], ent[1]
+            extra = list(ent[2]) if len(ent) > 2 else []
+            for u in range(n):
+                futs.append(pool.submit(fuzz_obj, src, ["-DVF_UNIT=%d" % u, "-DVF_NUNITS=%d" % n] + extra + cfg.get("cxxflags", []), san))
+        shim = pool.submit(compile_obj, "drivers/cov_shim.cpp", (), False, False)
+        fmain = pool.submit(compile_obj, "drivers/fuzz_main.cpp", ("-DVF_DRIVER_FUZZ",), san, False)
+        objs = [f.result() for f in futs] + [shim.result(), fmain.result()]
+    key = sha(*[os.path.basename(o) for o in objs], "fuzz")
+    out = os.path.join(BUILD, "bin", "%s-fuzz-%s" % (pid, key[:16]))
+    if not os.path.exists(out):
+        cmd = ["g++"] + san_flags(san) + objs + [FUZZ_RT, "-lpthread", "-o", out + ".tmp%d" % os.getpid()]
+        r = subprocess.run(cmd, capture_output=True, text=True)
+        if r.returncode != 0:
+            sys.stderr.write("LINK FAILED (fuzz): %s\n%s\n" % (" ".join(cmd), r.stderr[-4000:]))
+            raise SystemExit(3)
+        os.replace(out + ".tmp%d" % os.getpid(), out)
+    os.utime(out)
+    return out
+
+
+def list_checks(binp):
+    rc, out, err = run_bin(binp, ["--list"], 120)
+    res = {}
+    for line in out.splitlines():
+        m = re.match(r"(.*) len=(\d+) weight=", line)
+        if m:
+            res[m.group(1)] = int(m.group(2))
+    return res
+
+
+def fuzz_campaign(pid, binp, seed, rundir, seconds, patterns, repdir):
+    """coverage-guided campaigns (libFuzzer on the same tape decode); returns (candidates, checks, notes)"""
+    fz = build_fuzz(pid)
+    lens = list_checks(binp)
+    names = [n for n in sorted(lens) if any(p in n for p in patterns)]
+    if not names:
+        return [], {}, ["no check matches the fuzz patterns"], []
+    # spread NCPU workers over the selected checks (round robin, different libFuzzer seeds)
+    jobs = []
+    nworkers = max(NCPU, len(names)) if len(names) <= NCPU else len(names)
+    for w in range(nworkers):
+        name = names[w % len(names)]
+        d = os.path.join(rundir, "fz-%d" % w)
+        corpus = os.path.join(d, "corpus")
+        os.makedirs(corpus)
+        # seed corpus: nothing for even workers (empty corpus), the all-zero tape and regression tapes for odd ones
+        if w % 2 == 1:
+            open(os.path.join(corpus, "zeros"), "wb").write(b"\0" * 8 * min(lens[name], 64))
+            for f in glob.glob(os.path.join(repdir, "regress-*.json")):
+                try:
+                    dd = json.load(open(f))
+                    if dd.get("check") == name:
+                        a = array.array("Q", [int(x, 0) for x in dd["tape"]])
+                        open(os.path.join(corpus, os.path.basename(f) + ".bin"), "wb").write(a.tobytes())
+                except Exception:
+                    pass
+        args = [corpus, "-max_total_time=%d" % seconds, "-seed=%d" % (seed * 131 + w + 1), "-max_len=%d" % (8 * lens[name]), "-len_control=0",
+                "-print_final_stats=1", "-artifact_prefix=" + d + "/", "-rss_limit_mb=6000", "-timeout=120", "-verbosity=0"]
+        jobs.append((w, name, d, args))
+    cands, notes, reports = [], [], []
+    with cf.ThreadPoolExecutor(NCPU) as pool:
+        futs = {pool.submit(run_bin, fz, a, seconds + 600, {"VF_FUZZ_CHECK": n, "VF_FUZZ_OUT": d, "VERIF_SEED": str(seed)}): (w, n, d) for w, n, d, a in jobs}
+        for fu in cf.as_completed(futs):
+            w, name, d = futs[fu]
+            rc, out, err = fu.result()
+            rp = os.path.join(d, "fuzz_report.json")
+            if os.path.exists(rp):
+                try:
+                    r = json.load(open(rp))
+                    for c in r.get("checks", {}).values():
+                        c["engine"] = "libfuzzer"
+                    reports.append(r)
+                except Exception:
+                    pass
+            crashes = glob.glob(os.path.join(d, "crash-*")) + glob.glob(os.path.join(d, "leak-*"))
+            if os.path.exists(os.path.join(d, "fuzz-fail.json")):
+                cands.append((name, os.path.join(d, "fuzz-fail.json")))
+            elif crashes:
+                b = open(crashes[0], "rb").read()
+                b += b"\0" * (-len(b) % 8)
+                a = array.array("Q")
+                a.frombytes(b)
+                outp = os.path.join(d, "fuzz-abort.json")
+                json.dump(dict(property=pid, check=name, seed=seed, kind="abort", tape=["0x%x" % x for x in a], decoded="(libFuzzer crash artifact)", failures=[]), open(outp, "w"))
+                open(outp + ".stderr", "w").write(err[-8000:])
+                cands.append((name, outp))
+            elif rc not in (0,):
+                other = [os.path.basename(x) for x in glob.glob(os.path.join(d, "*-*")) if re.match(r"(timeout|oom|slow-unit)-", os.path.basename(x))]
+                notes.append("fuzz worker %d (%s) rc=%s: inconclusive %s" % (w, name, rc, other[:2]))
+    checks = merge_reports(reports)
+    for c in checks.values():
+        c["engine"] = "libfuzzer"
+    execs = sum(c["evals"] for c in checks.values())
+    notes.append("libFuzzer: %d workers x %ds on %d checks, %d executions" % (len(jobs), seconds, len(names), execs))
+    hashes = [os.path.join(d, "fuzz_hashes.bin") for _, _, d, _ in jobs]
+    return cands, checks, notes, hashes
+
+
 def merge_reports(reports):
     checks = {}
     for r in reports:
@@ -407,10 +549,13 @@ def write_evidence(pid, tier, seed, checks, distinct, wall, violations, extra=No
         cov.update(extra)
     ev = dict(property_id=pid, tier=tier, seed=seed, level="exploration", coverage=cov,
               assumptions=cfg.get("assumptions", []), wall_s=round(wall, 2), violations=violations)
-    os.makedirs(os.path.join(VERIF, "evidence"), exist_ok=True)
-    tmp = os.path.join(VERIF, "evidence", pid + ".json.tmp")
+    # VERIF_EVIDENCE_DIR / VERIF_REPLAY_DIR: used only by the mutation-sensitivity tooling so that runs against
+    # seeded changes never overwrite the evidence / replays of the real tree
+    evdir = os.environ.get("VERIF_EVIDENCE_DIR", os.path.join(VERIF, "evidence"))
+    os.makedirs(evdir, exist_ok=True)
+    tmp = os.path.join(evdir, pid + ".json.tmp")
     json.dump(ev, open(tmp, "w"), indent=1, default=str)
-    os.replace(tmp, os.path.join(VERIF, "evidence", pid + ".json"))
+    os.replace(tmp, os.path.join(evdir, pid + ".json"))
 
 
 def check(pid, tier, only=None):
@@ -422,6 +567,7 @@ def check(pid, tier, only=None):
     shutil.rmtree(rundir, ignore_errors=True)
     os.makedirs(rundir)
     repdir = os.path.join(VERIF, "replays", pid)
+    outdir = os.path.join(os.environ.get("VERIF_REPLAY_DIR", os.path.join(VERIF, "replays")), pid)  # where new violation files go
     violations = []   # (check, path)
     notes = []
     known_lines = []
@@ -453,7 +599,7 @@ def check(pid, tier, only=None):
     # 2. generated search: P processes x N cases with seeds derived from VERIF_SEED
     procs = cfg.get("procs", NCPU)
     cases = cfg["quick_cases"] if tier == "quick" else cfg["thorough_cases"]
-    rounds = 1 if tier == "quick" else cfg.get("thorough_rounds", 1)
+    rounds = cfg.get("quick_rounds", 1) if tier == "quick" else cfg.get("thorough_rounds", 1)
     timeout = cfg.get("timeout", 900) if tier == "quick" else cfg.get("thorough_timeout", 5400)
     reports, hashfiles = [], []
     jobs = []
@@ -501,8 +647,15 @@ def check(pid, tier, only=None):
                 else:
                     notes.append("process %s died (rc=%s) without breadcrumb: %s" % (tag, rc, err[-500:]))
 
+    # 2b. coverage-guided campaigns on the same tape decode (thorough tier)
+    fuzz_checks, fuzz_notes = {}, []
+    if tier == "thorough" and cfg.get("fuzz") and not only:
+        fc, fuzz_checks, fuzz_notes, fh = fuzz_campaign(pid, binp, seed, rundir, int(os.environ.get("VERIF_FUZZ_SECONDS", cfg.get("fuzz_seconds", 180))), cfg["fuzz"], repdir)
+        cands += fc
+        hashfiles += fh
+
     # 3. confirmation protocol
-    os.makedirs(repdir, exist_ok=True)
+    os.makedirs(outdir, exist_ok=True)
     seen = set()
     flaky = []
     for name, path in cands:
@@ -517,7 +670,7 @@ def check(pid, tier, only=None):
                 continue
             seen.add(name)
             safe = re.sub(r"[^A-Za-z0-9._-]", "_", name)
-            dst = os.path.join(repdir, "violation-%s-%s.json" % (safe, key))
+            dst = os.path.join(outdir, "violation-%s-%s.json" % (safe, key))
             shutil.copy(path, dst)
             if os.path.exists(path + ".stderr"):
                 shutil.copy(path + ".stderr", dst + ".stderr")
@@ -529,6 +682,9 @@ def check(pid, tier, only=None):
             shutil.copy(path, os.path.join(fd, "%s-%d-%s" % (pid, int(time.time()), os.path.basename(path))))
 
     checks = merge_reports(reports)
+    for n, c in fuzz_checks.items():
+        checks["[libfuzzer] " + n] = c
+    notes += fuzz_notes
     distinct = union_hashes(hashfiles)
     extra = dict(regression_tapes_replayed=nreg, processes=len(jobs), cases_per_process=cases, notes=notes,
                  inconclusive=inconclusive, flaky=flaky, repo=REPO, tree_hash=repo_tree_hash()[:16])
